@@ -42,21 +42,28 @@ def cases(draw):
         for c in draw(st.lists(st.sampled_from(CMDS), min_size=0 if routes else 1, max_size=2, unique=True)):
             if [i, c] not in routes:
                 routes.append([i, c])
-    registered = draw(st.sampled_from([True, True, True, False]))
-    if registered:
-        app_i, cmd = draw(st.sampled_from(routes))
-    else:
-        app_i = draw(st.integers(0, len(apps) - 1))
-        free = [c for c in CMDS if [app_i, c] not in routes]
-        cmd = draw(st.sampled_from(free))
-    sid = draw(st.one_of(gens.sized_bytes(40).filter(lambda b: len(b) > 0), st.sampled_from([b"peer.example;1;2", b"x"])))
-    return {"apps": apps, "routes": routes,
-            "request": {"app": app_i, "cmd": cmd, "registered": registered, "sid": sid.hex(),
-                        "origin_host": draw(st.sampled_from(["peer.example", "mme01.epc.example.org", "h"])),
-                        "origin_realm": draw(st.sampled_from(["peer.realm", "r"])),
-                        "form": draw(st.sampled_from(["built", "decoded"])), "hbh": draw(gens.hdr_field(32)), "e2e": draw(gens.hdr_field(32)),
-                        "extra": draw(st.booleans())},
-            "outcome": draw(st.sampled_from(OUTCOMES))}
+    def one_request():
+        registered = draw(st.sampled_from([True, True, True, False]))
+        if registered:
+            app_i, cmd = draw(st.sampled_from(routes))
+        else:
+            app_i = draw(st.integers(0, len(apps) - 1))
+            free = [c for c in CMDS if [app_i, c] not in routes]
+            cmd = draw(st.sampled_from(free))
+        sid = draw(st.one_of(gens.sized_bytes(40).filter(lambda b: len(b) > 0), st.sampled_from([b"peer.example;1;2", b"x"])))
+        return {"app": app_i, "cmd": cmd, "registered": registered, "sid": sid.hex(),
+                "origin_host": draw(st.sampled_from(["peer.example", "mme01.epc.example.org", "h"])),
+                "origin_realm": draw(st.sampled_from(["peer.realm", "r"])),
+                "form": draw(st.sampled_from(["built", "decoded"])), "hbh": draw(gens.hdr_field(32)), "e2e": draw(gens.hdr_field(32)),
+                "extra": draw(st.booleans()), "outcome": draw(st.sampled_from(OUTCOMES))}
+    n_req = draw(st.sampled_from([1, 2, 3, 4]))
+    reqs = [one_request() for _ in range(n_req)]
+    if shared and len(apps) >= 2 and n_req >= 2 and draw(st.booleans()):
+        # the same shared command code on two different applications, one after the other
+        c = routes[0][1]
+        reqs[0].update(app=0, cmd=c, registered=True)
+        reqs[1].update(app=1, cmd=c, registered=True)
+    return {"apps": apps, "routes": routes, "requests": reqs}
 
 
 class _Custom(Exception):
@@ -64,21 +71,24 @@ class _Custom(Exception):
 
 
 def run_one(case):
+    """One application object, one route table, a history of requests dispatched one after the other."""
     common.bootstrap()
     refdict.all_classes()
     errors = common.lib_errors()
     from bromelia.base import DiameterRequest, DiameterAnswer, DiameterMessage, DiameterHeader
     from bromelia.exceptions import BromeliaException
     C = refdict.cls_obj
+    if "requests" not in case:                       # replay files written before histories were introduced
+        case = dict(case, requests=[dict(case["request"], outcome=case["outcome"])])
     app, workers = inproc.make_app(case["apps"])
     app_ids = [rc.ref_u32(inproc.APPS[a][2]) for a in case["apps"]]
     calls = []
-    rq = case["request"]
-    outcome = case["outcome"]
+    cur = {}
 
     def make_handler(key):
         def handler(request):
             calls.append(key)
+            rq, outcome = cur["rq"], cur["rq"]["outcome"]
             if outcome == "answer":
                 return DiameterAnswer(command_code=rq["cmd"], application_id=app_ids[rq["app"]],
                                       avps=[C("SessionIdAVP")(b"placeholder"), C("ResultCodeAVP")(2001),
@@ -118,76 +128,86 @@ def run_one(case):
     for app_i, cmd in case["routes"]:
         app.route(application_id=app_ids[app_i], command_code=cmd.to_bytes(3, "big"))(make_handler((app_i, cmd)))
 
-    avps = [C("SessionIdAVP")(bytes.fromhex(rq["sid"])), C("OriginHostAVP")(rq["origin_host"]), C("OriginRealmAVP")(rq["origin_realm"]),
-            C("DestinationRealmAVP")("local.example")]
-    if rq["extra"]:
-        avps.insert(1, C("AuthSessionStateAVP")(rc.ref_u32(1)))
-        avps.append(C("UserNameAVP")("001010000000001"))
-    request = DiameterRequest(command_code=rq["cmd"], application_id=app_ids[rq["app"]], avps=avps)
-    request.header.hop_by_hop = rq["hbh"]
-    request.header.end_to_end = rq["e2e"]
-    wire_req = rc.dec_stream(request.dump())[0]
-    if rq["form"] == "decoded":
-        request = DiameterMessage.load(request.dump())[0]
-    raised = None
-    try:
-        app.callback_route(request)
-    except BromeliaException as e:
-        raised = e
-    except KeyError as e:
-        raised = e
-    except (Exception,) + errors as e:
-        raised = e
-    sent = {i: inproc.drain(workers[app_ids[i]]) for i in range(len(case["apps"]))}
     vs = []
-    kind = "answer" if outcome == "answer" else ("raises" if outcome.startswith("raise") else "non-answer")
-    want_calls = [(rq["app"], rq["cmd"])] if rq["registered"] else []
-    if calls != want_calls:
-        extra = [c for c in calls if c not in want_calls]
-        why = "wrong-handler" if extra else ("not-dispatched" if not calls else "dispatched-more-than-once")
-        vs.append(V("dispatch to exactly the handler registered for (Application-ID, command code)", f"dispatch/{why}",
-                    f"ran {calls}, expected {want_calls}; table {case['routes']}"))
-    if not rq["registered"]:
-        n = sum(len(v) for v in sent.values())
-        if n:
-            vs.append(V("no handler, no answer for an unregistered pair", "unregistered/answer-sent", f"{n} message(s)"))
-        return vs
-    for i, msgs in sent.items():
-        if i != rq["app"] and msgs:
-            vs.append(V("only the request's application worker receives the answer", "answer/wrong-worker", f"worker {case['apps'][i]} got {len(msgs)}"))
-    mine = sent[rq["app"]]
-    if len(mine) != 1:
-        vs.append(V("exactly one answer is sent per request", f"answer/count-{len(mine)}/{kind}", f"outcome {outcome}: {len(mine)} message(s); raised {raised!r}"))
-        return vs
-    try:
-        wire = mine[0].dump()
-        dec = rc.dec_stream(wire)[0]
-    except (rc.RefDecodeError, Exception) + errors as e:
-        vs.append(V("the answer is a well-formed message", f"answer/undecodable/{kind}", repr(e)))
-        return vs
-    if dec["flags"] & 0x80:
-        vs.append(V("the answer has the R flag clear", f"answer/r-flag/{kind}", hex(dec["flags"])))
-    for fld in ("hbh", "e2e", "app", "cmd"):
-        if dec[fld] != wire_req[fld]:
-            vs.append(V("the answer carries the request's identifiers", f"answer/{fld}/{kind}", f"{dec[fld]} != {wire_req[fld]}"))
-    sid = rc.find_avp(dec["avps"], 263)
-    if len(sid) != 1 or sid[0]["data"] != bytes.fromhex(rq["sid"]):
-        vs.append(V("the answer carries the request's Session-Id", f"answer/session-id/{kind}", f"{[s['data'] for s in sid]}"))
-    if dec["length"] != len(wire):
-        vs.append(V("Message Length matches", f"answer/length/{kind}", ""))
-    if kind != "answer":
-        res = rc.find_avp(dec["avps"], 268)
-        if len(res) != 1 or int.from_bytes(res[0]["data"], "big") != 5012:
-            vs.append(V("a failing handler yields DIAMETER_UNABLE_TO_COMPLY", "error-answer/result-code", f"{[r['data'].hex() for r in res]}"))
-        name = case["apps"][rq["app"]]
-        want = {264: f"{name}.local.node.example".encode(), 296: b"local.example", 293: rq["origin_host"].encode(), 283: rq["origin_realm"].encode()}
-        label = {264: "origin-host", 296: "origin-realm", 293: "destination-host", 283: "destination-realm"}
-        for code, data in want.items():
-            got = rc.find_avp(dec["avps"], code)
-            if len(got) != 1 or got[0]["data"] != data:
-                vs.append(V("error answer carries the local origin and the requester as destination", f"error-answer/{label[code]}",
-                            f"{[g['data'] for g in got]} != {data!r}"))
-    return vs
+    for pos, rq in enumerate(case["requests"]):
+        cur["rq"] = rq
+        del calls[:]
+        outcome = rq["outcome"]
+        avps = [C("SessionIdAVP")(bytes.fromhex(rq["sid"])), C("OriginHostAVP")(rq["origin_host"]), C("OriginRealmAVP")(rq["origin_realm"]),
+                C("DestinationRealmAVP")("local.example")]
+        if rq["extra"]:
+            avps.insert(1, C("AuthSessionStateAVP")(rc.ref_u32(1)))
+            avps.append(C("UserNameAVP")("001010000000001"))
+        request = DiameterRequest(command_code=rq["cmd"], application_id=app_ids[rq["app"]], avps=avps)
+        request.header.hop_by_hop = rq["hbh"]
+        request.header.end_to_end = rq["e2e"]
+        wire_req = rc.dec_stream(request.dump())[0]
+        if rq["form"] == "decoded":
+            request = DiameterMessage.load(request.dump())[0]
+        raised = None
+        try:
+            app.callback_route(request)
+        except BromeliaException as e:
+            raised = e
+        except KeyError as e:
+            raised = e
+        except (Exception,) + errors as e:
+            raised = e
+        sent = {i: inproc.drain(workers[app_ids[i]]) for i in range(len(case["apps"]))}
+        kind = "answer" if outcome == "answer" else ("raises" if outcome.startswith("raise") else "non-answer")
+        hist = "first" if pos == 0 else "later"
+        want_calls = [(rq["app"], rq["cmd"])] if rq["registered"] else []
+        if calls != want_calls:
+            extra = [c for c in calls if c not in want_calls]
+            why = "wrong-handler" if extra else ("not-dispatched" if not calls else "dispatched-more-than-once")
+            vs.append(V("dispatch to exactly the handler registered for (Application-ID, command code)", f"dispatch/{why}/{hist}-request",
+                        f"request {pos} for (app {rq['app']}, cmd {rq['cmd']}): ran {calls}, expected {want_calls}; table {case['routes']}"))
+        if not rq["registered"]:
+            n = sum(len(v) for v in sent.values())
+            if n:
+                vs.append(V("no handler, no answer for an unregistered pair", "unregistered/answer-sent", f"{n} message(s)"))
+            continue
+        for i, msgs in sent.items():
+            if i != rq["app"] and msgs:
+                vs.append(V("only the request's application worker receives the answer", "answer/wrong-worker", f"worker {case['apps'][i]} got {len(msgs)}"))
+        mine = sent[rq["app"]]
+        if len(mine) != 1:
+            vs.append(V("exactly one answer is sent per request", f"answer/count-{len(mine)}/{kind}", f"request {pos}, outcome {outcome}: {len(mine)} message(s); raised {raised!r}"))
+            continue
+        try:
+            wire = mine[0].dump()
+            dec = rc.dec_stream(wire)[0]
+        except (rc.RefDecodeError, Exception) + errors as e:
+            vs.append(V("the answer is a well-formed message", f"answer/undecodable/{kind}", repr(e)))
+            continue
+        if dec["flags"] & 0x80:
+            vs.append(V("the answer has the R flag clear", f"answer/r-flag/{kind}", hex(dec["flags"])))
+        for fld in ("hbh", "e2e", "app", "cmd"):
+            if dec[fld] != wire_req[fld]:
+                vs.append(V("the answer carries the request's identifiers", f"answer/{fld}/{kind}", f"{dec[fld]} != {wire_req[fld]}"))
+        sid = rc.find_avp(dec["avps"], 263)
+        if len(sid) != 1 or sid[0]["data"] != bytes.fromhex(rq["sid"]):
+            vs.append(V("the answer carries the request's Session-Id", f"answer/session-id/{kind}", f"{[s['data'] for s in sid]}"))
+        if dec["length"] != len(wire):
+            vs.append(V("Message Length matches", f"answer/length/{kind}", ""))
+        if kind != "answer":
+            res = rc.find_avp(dec["avps"], 268)
+            if len(res) != 1 or int.from_bytes(res[0]["data"], "big") != 5012:
+                vs.append(V("a failing handler yields DIAMETER_UNABLE_TO_COMPLY", "error-answer/result-code", f"{[r['data'].hex() for r in res]}"))
+            name = case["apps"][rq["app"]]
+            want = {264: f"{name}.local.node.example".encode(), 296: b"local.example", 293: rq["origin_host"].encode(), 283: rq["origin_realm"].encode()}
+            label = {264: "origin-host", 296: "origin-realm", 293: "destination-host", 283: "destination-realm"}
+            for code, data in want.items():
+                got = rc.find_avp(dec["avps"], code)
+                if len(got) != 1 or got[0]["data"] != data:
+                    vs.append(V("error answer carries the local origin and the requester as destination", f"error-answer/{label[code]}",
+                                f"{[g['data'] for g in got]} != {data!r}"))
+    seen, out = set(), []
+    for v in vs:
+        if v.sig not in seen:
+            seen.add(v.sig)
+            out.append(v)
+    return out
 
 
 def run_case(case):
@@ -197,18 +217,23 @@ def run_case(case):
 
 
 def features(case):
-    f = {"outcome=" + case["outcome"].split("-")[0], "form=" + case["request"]["form"]}
+    f = {f"apps={len(case['apps'])}", f"requests={len(case['requests'])}"}
     by_cmd = {}
     for a, c in case["routes"]:
         by_cmd.setdefault(c, set()).add(a)
     if any(len(v) >= 2 for v in by_cmd.values()):
         f.add("shared-command-code")
-    rq = case["request"]
-    if len(by_cmd.get(rq["cmd"], ())) >= 2:
-        f.add("request-on-shared-code")
-    if not rq["registered"]:
-        f.add("unregistered")
-    f.add(f"apps={len(case['apps'])}")
+    seen_shared = {}
+    for rq in case["requests"]:
+        f.add("outcome=" + ("raise-noargs" if "noargs" in rq["outcome"] else rq["outcome"].split("-")[0]))
+        f.add("form=" + rq["form"])
+        if len(by_cmd.get(rq["cmd"], ())) >= 2 and rq["registered"]:
+            f.add("request-on-shared-code")
+            seen_shared.setdefault(rq["cmd"], set()).add(rq["app"])
+        if not rq["registered"]:
+            f.add("unregistered")
+    if any(len(v) >= 2 for v in seen_shared.values()):
+        f.add("same-code-on-two-applications-in-one-history")
     return f
 
 
@@ -217,7 +242,7 @@ def _collect(shard, seed, n):
 
     def body(case):
         f = features(case)
-        nt = "shared-command-code" in f or case["outcome"] != "answer" or "unregistered" in f
+        nt = "shared-command-code" in f or any(r["outcome"] != "answer" for r in case["requests"]) or "unregistered" in f
         col.record(case, run_one(case), nontrivial=nt, classes=sorted(f))
 
     common.hyp_collect(cases(), body, n, seed)
@@ -230,7 +255,8 @@ def main(ctx):
     for path, rec in common.load_replays(PID):
         col.record(rec["case"], run_case(rec["case"]), nontrivial=True, classes=["replay"])
     ctx.required_classes = ["shared-command-code", "request-on-shared-code", "unregistered", "outcome=none", "outcome=raise", "outcome=str",
-                            "outcome=request", "outcome=generic", "form=decoded", "apps=3", "concurrent-dispatch"]
+                            "outcome=request", "outcome=generic", "outcome=raise-noargs", "form=decoded", "apps=3", "requests=4", "concurrent-dispatch",
+                            "same-code-on-two-applications-in-one-history"]
     ctx.assumptions = ["in-process Worker objects with a fake multiprocessing manager; the hand-over is observed at the worker's send queue",
                        "handlers raise only standard Exception subclasses; requests carry Session-Id, Origin-Host and Origin-Realm",
                        "unregistered pairs: only 'no handler runs and nothing is sent' is asserted (documented behaviour)"]
